@@ -79,3 +79,47 @@ Definition final_is_sequential (c : exec_case) : bool :=
                        | None => true
                        end) fin
   end.
+
+(* ---- programs with barriers, run by many workers ------------------------------------------------
+   barrier() makes everything after it wait for everything before it, and bvalue(t) makes everything
+   after it wait for t (C14: the loader passes a barrier only if every earlier task is stored, and
+   bvalue only with the stored value).  For the execution protocol that is an extra scheduling
+   dependency: [bp_extra] lists, for each task defined after a barrier / bvalue, the tasks it thereby
+   waits for.  The task list is the full sequential unfolding of the jugfile. *)
+Record bprogram := { bp_prog : program; bp_extra : list (tid * list tid) }.
+
+Fixpoint extra_of (l : list (tid * list tid)) (t : tid) : list tid :=
+  match l with [] => [] | (k, ds) :: r => if Pos.eqb k t then ds else extra_of r t end.
+
+Definition bprog_deps (bp : bprogram) (t : tid) : list tid :=
+  prog_deps (bp_prog bp) t ++ (if mem t (map t_id (p_tasks (bp_prog bp))) then extra_of (bp_extra bp) t else []).
+
+Definition bprog_cfg (bp : bprogram) : cfg val :=
+  {| c_tasks := map t_id (p_tasks (bp_prog bp)); c_deps := bprog_deps bp; c_sem := prog_sem (bp_prog bp);
+     c_eqb := val_eqb; c_keep_going := p_keep_going (bp_prog bp); c_keep_failed := p_keep_failed (bp_prog bp) |}.
+
+Fixpoint wf_btasks (extra : list (tid * list tid)) (seen : list tid) (l : list task) : bool :=
+  match l with
+  | [] => true
+  | x :: r => negb (mem (t_id x) seen) && forallb (fun d => mem d seen) (task_deps x ++ extra_of extra (t_id x))
+              && wf_btasks extra (t_id x :: seen) r
+  end.
+Definition wf_bprog (bp : bprogram) : bool := wf_btasks (bp_extra bp) [] (p_tasks (bp_prog bp)).
+
+Definition bexec_case := (bprogram * list (tid * val) * list (ev val) * list (tid * option val))%type.
+
+Definition bexec_case_ok (c : bexec_case) : bool :=
+  match c with (bp, r0, tr, fin) =>
+    wf_bprog bp &&
+    match run (bprog_cfg bp) (init (st_of r0)) tr with
+    | Some s => final_agrees s fin
+    | None => false
+    end
+  end.
+
+Definition bexec_case_diag (c : bexec_case) : option nat :=
+  match c with (bp, r0, tr, fin) => first_reject (bprog_cfg bp) (init (st_of r0)) tr 0 end.
+
+(* sequential evaluation ignores barriers: they only delay *)
+Definition bfinal_is_sequential (c : bexec_case) : bool :=
+  match c with (bp, r0, tr, fin) => final_is_sequential (bp_prog bp, r0, tr, fin) end.
